@@ -655,39 +655,53 @@ func translateFile(f *ast.File, ns string) (string, []string) {
 	return g.b.String(), g.err
 }
 
-func goCode(root string) string {
+/*
+one generated file per source unit, so that a change of one source file can only disturb the
+
+	theorems about that file
+*/
+var goUnits = []string{"history", "feed", "ansi", "style", "object"}
+
+func goCode(root string, unit string) string {
 	var b strings.Builder
-	b.WriteString("/- GENERATED by extract/go2lean.go from history/history.go and feed/feed.go on every run. Do not edit. -/\nimport Model.GoSem\nimport Model.GoJson\nimport Model.Ansi\nimport Model.Style\n\n")
-	for _, it := range [][2]string{{"history/history.go", "GenHistory"}, {"feed/feed.go", "GenFeed"}} {
-		f := parseFile(root, it[0])
-		text, errs := translateFile(f, it[1])
-		b.WriteString("/-! ## " + it[0] + " -/\n\n")
+	emit := func(title, text string, errs []string) {
+		b.WriteString("/-! ## " + title + " -/\n\n")
 		b.WriteString(text)
 		b.WriteString("\n")
 		for _, e := range errs {
 			b.WriteString("-- UNTRANSLATABLE: " + e + "\n")
 		}
 	}
-	af := parseFile(root, "ansi/ansi.go")
-	text, errs := translateFuncs(af, []string{"Height", "Squash", "CenterVertically", "ReplaceLastLine", "SetLength"}, "GenAnsi", false)
-	b.WriteString("/-! ## ansi/ansi.go (vertical layout) -/\n\n")
-	b.WriteString(text)
-	for _, e := range errs {
-		b.WriteString("-- UNTRANSLATABLE: " + e + "\n")
+	header := func(imports ...string) {
+		b.WriteString("/- GENERATED by extract/go2lean*.go from the current source tree on every run. Do not edit. -/\n")
+		for _, im := range imports {
+			b.WriteString("import " + im + "\n")
+		}
+		b.WriteString("\n")
 	}
-	sf := parseFile(root, "style/style.go")
-	text, errs = translateFuncs(sf, []string{"background", "foreground", "Bold", "Strikethrough", "Underline", "Italic", "Code", "Highlight", "Color", "Red", "Link", "CodeBlock", "QuoteBlock", "LinkBlock", "Header", "Bullet"}, "GenStyle", true)
-	b.WriteString("\n/-! ## style/style.go -/\n\n")
-	b.WriteString(text)
-	for _, e := range errs {
-		b.WriteString("-- UNTRANSLATABLE: " + e + "\n")
-	}
-	of := parseFile(root, "object/object.go")
-	text, errs = translateErrFuncs(of, []string{"GetAny", "GetString", "GetObject", "GetList", "GetTime", "GetURL", "GetMediaType"}, "GenObject")
-	b.WriteString("\n/-! ## object/object.go (typed accessors) -/\n\n")
-	b.WriteString(text)
-	for _, e := range errs {
-		b.WriteString("-- UNTRANSLATABLE: " + e + "\n")
+	switch unit {
+	case "history":
+		header("Model.GoSem")
+		text, errs := translateFile(parseFile(root, "history/history.go"), "GenHistory")
+		emit("history/history.go", text, errs)
+	case "feed":
+		header("Model.GoSem")
+		text, errs := translateFile(parseFile(root, "feed/feed.go"), "GenFeed")
+		emit("feed/feed.go", text, errs)
+	case "ansi":
+		header("Model.GoSem", "Model.Ansi")
+		text, errs := translateFuncs(parseFile(root, "ansi/ansi.go"), []string{"Height", "Squash", "CenterVertically", "ReplaceLastLine", "SetLength"}, "GenAnsi", false)
+		emit("ansi/ansi.go (vertical layout)", text, errs)
+	case "style":
+		header("Model.GoSem", "Model.Ansi", "Model.Style")
+		text, errs := translateFuncs(parseFile(root, "style/style.go"), []string{"background", "foreground", "Bold", "Strikethrough", "Underline", "Italic", "Code", "Highlight", "Color", "Red", "Link", "CodeBlock", "QuoteBlock", "LinkBlock", "Header", "Bullet"}, "GenStyle", true)
+		emit("style/style.go", text, errs)
+	case "object":
+		header("Model.GoSem", "Model.GoJson", "Model.Ansi")
+		text, errs := translateErrFuncs(parseFile(root, "object/object.go"), []string{"GetAny", "GetString", "GetObject", "GetList", "GetTime", "GetURL", "GetMediaType"}, "GenObject")
+		emit("object/object.go (typed accessors)", text, errs)
+	default:
+		b.WriteString("-- unknown unit " + unit + "\n")
 	}
 	return b.String()
 }
